@@ -739,6 +739,19 @@ class Gen(object):
             if mut['kind'] == 'Text':
                 keep.pop('db_index', None)
                 keep.pop('unique', None)
+            if rng.random() < 0.5:
+                # ... or do not restate it: the attribute silently returns
+                # to its default together with the type change (what a
+                # hinted evolution does)
+                for key in ('db_index', 'unique'):
+                    if key in keep and key not in mut['attrs'] and \
+                            rng.random() < 0.6:
+                        del keep[key]
+                if keep.get('null') is True and 'null' not in mut['attrs'] \
+                        and trows is not None and \
+                        not any(r.get(col) is None for r in trows) and \
+                        rng.random() < 0.6:
+                    del keep['null']
             mut['attrs'] = keep
         if not mut['attrs'] and not mut.get('kind'):
             return None
